@@ -9,7 +9,7 @@
    the theorems say that neither happens - for every table: there is no hypothesis on paths, attribute
    names or values. *)
 From LibcoapV Require Import Base.Tactics Base.Bytes Link.LinkFormat Link.LinkProofs
-  Link.FilterProofs Link.WellknownProofs Link.LinkExamples.
+  Link.FilterProofs Link.WellknownProofs Link.LinkExamples Link.LinkParse Link.LinkParseProofs.
 Local Open Scope Z_scope.
 
 (* one link, any (offset, buffer length): bytes stored = that window of "</path>;attr..;obs;osc",
@@ -195,3 +195,25 @@ Theorem C20_handle_get_nolib_refuted :
     exists b, lf_handle_get_nolib rs [] room = Lf205 b /\ len b < len (lf_listing (lf_selected None rs)).
 Proof. exact lf_handle_get_nolib_refuted. Qed.
 Print Assumptions C20_handle_get_nolib_refuted.
+
+(* "lists exactly": reading the listing back with an RFC 6690 link-format reader (lf_parse:
+   "<" "/" path ">" *( ";" name [ "=" ( quoted-string | token ) ] ) separated by ",") yields
+   exactly the listed resources - path, every attribute with its value in order, and the
+   obs / osc markers - whenever their texts are unambiguous link-format (lf_clean_res: no '>'
+   in a path, no ';' ',' '=' in a name, values quoted without inner quote or free of ';' ',').
+   Hence two such tables with the same listing list the same resources. *)
+Theorem C20_listing_determines_table : forall rs,
+  forallb lf_clean_res rs = true -> lf_parse (lf_listing rs) = Some (map lf_canon rs).
+Proof. exact lf_parse_listing. Qed.
+Print Assumptions C20_listing_determines_table.
+
+Theorem C20_listing_injective : forall rs1 rs2,
+  forallb lf_clean_res rs1 = true -> forallb lf_clean_res rs2 = true ->
+  lf_listing rs1 = lf_listing rs2 -> map lf_canon rs1 = map lf_canon rs2.
+Proof. exact lf_listing_injective. Qed.
+Print Assumptions C20_listing_injective.
+
+(* the concrete table of C20_nonvacuous is clean *)
+Theorem C20_clean_nonvacuous : forallb lf_clean_res lf_ex_table = true.
+Proof. exact lf_ex_clean. Qed.
+Print Assumptions C20_clean_nonvacuous.
